@@ -1,13 +1,13 @@
 SPECIFICATION Spec
 CONSTANTS
-  N = 3
-  Kinds <- K3
+  N = 2
+  Kinds <- K2e
   Units = 2
   Cap = 1
   DropParentCloseW = FALSE
   FailAt = 0
   CapReadMode = "concurrent"
-  Capture = FALSE
+  Capture = TRUE
 INVARIANT ExecFds
 INVARIANT ShellFdsRestored
 INVARIANT NoForeignEnds
